@@ -197,11 +197,25 @@ func (x *Exec) instrMods(st *State, fr *Frame, in ssa.Instruction, out map[strin
 	seen := map[string]bool{}
 	switch in := in.(type) {
 	case *ssa.Store:
+		root := in.Addr
+		for {
+			if fa, ok := root.(*ssa.FieldAddr); ok {
+				root = fa.X
+				continue
+			}
+			break
+		}
+		if al, ok := root.(*ssa.Alloc); ok && !isArray(deref(al.Type())) && !x.escapes(al) {
+			return false // register local, no heap effect
+		}
 		x.addrMods(in.Addr, out)
 	case *ssa.MapUpdate:
 		x.mapContentKeys(in.Map.Type(), out, seen)
 	case *ssa.Alloc:
 		t := deref(in.Type())
+		if !isArray(t) && !x.escapes(in) {
+			return false
+		}
 		if at, ok := under(t).(*types.Array); ok {
 			x.elemKeys(at.Elem(), out, seen)
 		} else if isStruct(t) {
